@@ -33,10 +33,10 @@ const (
 )
 
 type inventory struct {
-	Sends, Recvs, Gos, Selects, SelectDefaults int
+	Sends, Recvs, Gos, Selects, SelectDefaults                                            int
 	SyncImports, TimeNow, MathRand, CryptoRand, DryRandom, MapRanges, KeysOrder, DialSeam int
-	Unhooked []string
-	Files    []string
+	Unhooked                                                                              []string
+	Files                                                                                 []string
 }
 
 var inv inventory
@@ -103,6 +103,38 @@ func main() {
 				return err
 			}
 			rel, _ := filepath.Rel(*added, p)
+			// a file "x.go.when-<text>" / "x.go.unless-<text>" is added as x.go only when the repository file named on
+			// its first line ("//verif:file <path>") contains / does not contain <text> (with '~' for a space): harness
+			// exports that reach into private fields come in two variants, so that a refactoring of those fields
+			// leaves the harness buildable
+			if i := strings.Index(rel, ".go."); i >= 0 {
+				cond := rel[i+len(".go."):]
+				rel = rel[:i+len(".go")]
+				src, _ := os.ReadFile(p)
+				first := strings.SplitN(string(src), "\n", 2)[0]
+				if !strings.HasPrefix(first, "//verif:file ") {
+					fail("conditional added file without //verif:file line: %s", p)
+				}
+				subject, _ := os.ReadFile(filepath.Join(*repo, strings.TrimSpace(strings.TrimPrefix(first, "//verif:file "))))
+				subject = []byte(strings.Join(strings.Fields(string(subject)), " ")) // runs of white space count as one space
+				has := func(t string) bool { return bytes.Contains(subject, []byte(strings.ReplaceAll(t, "~", " "))) }
+				switch {
+				case strings.HasPrefix(cond, "when-"):
+					if !has(strings.TrimPrefix(cond, "when-")) {
+						return nil
+					}
+				case strings.HasPrefix(cond, "unless-"):
+					if has(strings.TrimPrefix(cond, "unless-")) {
+						return nil
+					}
+				default:
+					fail("unknown condition on added file %s", p)
+				}
+				dst := filepath.Join(*out, "cond", rel)
+				must(os.MkdirAll(filepath.Dir(dst), 0o755))
+				must(os.WriteFile(dst, src, 0o644))
+				p = dst
+			}
 			if !strings.HasSuffix(rel, ".go") {
 				return nil
 			}
